@@ -153,6 +153,24 @@ CHECKS = {
             'catalogue request under every prefix and outside.',
             'both sides execute clastic; a factory strictly between a route\'s own application and the outermost one is not combined with factory-argument renders',
             'DESIGN.md §4 C10'),
+    'C11': ('exploration',
+            'Hypothesis rule-based state machine over applications and unbound routes; model routing tables (list.insert semantics) + reference dispatcher as history invariant',
+            'Histories of constructing applications, creating routes, add() of routes / tuples / sub-applications at indices, '
+            'failing adds of 7 kinds (also as the k-th route of an embedded application, and failing constructors), embedding, '
+            'binding one Route into several applications and requests; after every step every live application\'s route table '
+            'must equal the model, a fixed request set must be answered as the reference dispatcher predicts on the model, and '
+            'every unbound Route must be unchanged by value and identity.',
+            'trusts the reference dispatcher; an application is not embedded into itself',
+            'DESIGN.md §4 C11'),
+    'C12': ('exploration',
+            'harness-owned deterministic thread scheduler (sys.settrace, line granularity): complete enumeration of single-preemption schedules for request pairs, Hypothesis-drawn multi-preemption schedules, free-running stress; oracle = response served alone',
+            'Two to four threads send requests of 15 kinds to one shared application; for the listed ordered pairs request A is '
+            'preempted after every possible number of line-steps inside clastic / generated code while B runs to completion; '
+            'Hypothesis draws multi-preemption schedules for 2-4 threads; 8 free-running threads run with a 1 microsecond switch '
+            'interval. Every response (status, body echoing path / URL parameters / middleware-provided token / request identity, '
+            'Location, Allow) must equal the one obtained alone; request identifiers must be pairwise distinct.',
+            'serialised threads at line granularity: intra-line races only by the probabilistic stress part; a stalled schedule is inconclusive, not a violation',
+            'DESIGN.md §4 C12'),
 }
 
 PENDING_REASON = 'check not built yet in this session (planned, see DESIGN.md §4); not claimed until it runs quietly on the unchanged tree'
